@@ -29,6 +29,8 @@ use lazy_static::lazy_static;
 use native_tls::TlsConnector;
 #[cfg(unix)]
 use percent_encoding::percent_decode;
+#[cfg(unix)]
+use std::os::unix::ffi::OsStrExt;
 #[cfg(all(any(feature = "gssapi", feature = "ntlm"), feature = "tls-rustls"))]
 use ring::digest::{self, digest, Algorithm};
 #[cfg(feature = "tls-rustls")]
@@ -486,8 +488,9 @@ impl LdapConnAsync {
                 if path.contains(':') || url.port().is_some() {
                     return Err(LdapError::PortInUnixPath);
                 }
-                let dec_path = percent_decode(path.as_bytes()).decode_utf8_lossy();
-                UnixStream::connect(dec_path.as_ref()).await?
+                // The socket path is a byte string: it need not be UTF-8.
+                let dec_path: Vec<u8> = percent_decode(path.as_bytes()).collect();
+                UnixStream::connect(std::ffi::OsStr::from_bytes(&dec_path)).await?
             }
             Some(StdStream::Unix(stream)) => {
                 stream.set_nonblocking(true)?;
